@@ -193,3 +193,37 @@ def builder_clear_after_record(case, why):
     stale = any(cmds[i] == "clear" and any(c in ("beginrecord", "begintuple") for c in cmds[:i]) for i in range(at))
     return stale and ("differs from appended values" in why or "ill-nested call accepted" in why
                       or "well-nested call raised" in why)
+
+
+def _record_with_unreachable(L):
+    """a Record node whose contents are longer than its declared length"""
+    if not isinstance(L, dict):
+        return False
+    if L.get("c") == "Record" and L.get("xs"):
+        def ln(x):
+            c = x.get("c")
+            if c == "Numpy":
+                return len(x.get("d", []))
+            if c == "ListOffset":
+                return len(x["o"]) - 1
+            if c in ("List",):
+                return len(x["s"])
+            if c in ("Indexed", "IndexedOption"):
+                return len(x["i"])
+            if c == "ByteMasked":
+                return len(x["m"])
+            if c == "Record":
+                return x.get("n", 0)
+            return 10 ** 6
+        if any(ln(x) > L.get("n", 0) for x in L["xs"]):
+            return True
+    if "x" in L and _record_with_unreachable(L["x"]):
+        return True
+    return any(_record_with_unreachable(x) for x in L.get("xs", []))
+
+
+def slice_record_unreachable_content(case, why):
+    """F24: a positional index applied below a RecordArray whose contents are longer than the record length is also
+    applied to the unreachable entries, raising a spurious 'index out of range'."""
+    return (case.get("act") == "slice" and _record_with_unreachable(case.get("from"))
+            and "index out of range" in why and why.startswith("spec: value expected"))
